@@ -41,6 +41,9 @@ type Case struct {
 	MaxMsg int             `json:"maxMsg"` // defs.InputLogMaxMessageBytes (production 1 MiB)
 	Inputs [][]vh.Seg      `json:"inputs"` // hostile inputs, each presented as one record
 	NoPack bool            `json:"noPack,omitempty"` // skip the chunk makers (fuzz target: they cost 3 MB of buffers per pipeline)
+	PoolAll bool           `json:"poolAll,omitempty"` // pooling threshold (a defs variable, 1 KiB) lowered to 32 bytes: the backing buffer of every
+	// record is recycled at its release and re-used by the next input of the same size class; the case ends with binary
+	// garbage of exactly the sentinels' lengths, and the metrics must still be exportable afterwards
 }
 
 type loaded struct {
@@ -92,6 +95,11 @@ func runCase(c Case) vh.Result {
 	defs.InputLogMaxMessageBytes = c.MaxMsg
 	defs.InputLogMaxRecordBytes = c.MaxMsg + 256
 	defs.ListenerLineBufferSize = defs.InputLogMaxRecordBytes * 4
+	defs.InputLogMinRecordBytesToPool = 1024
+	if c.PoolAll {
+		defs.InputLogMinRecordBytesToPool = 32
+		res.Classes = append(res.Classes, "all-records-pooled")
+	}
 	ld := load(c)
 	// reference outputs of the sentinels on a fresh pipeline
 	fresh, err := vh.NewSyncPipelineOpt(ld.conf, ld.schema, "tag", vh.SyncOptions{NoChunks: true})
@@ -163,6 +171,24 @@ func runCase(c Case) vh.Result {
 			}
 		}
 	}
+	if c.PoolAll {
+		// binary garbage of exactly the sentinels' lengths takes over the buffers the sentinels have just given back
+		for _, s := range sentinels {
+			g := bytes.Repeat([]byte{0xff, 0xfe, '<', 0x00}, len(s)/4+1)[:len(s)]
+			if pf := vh.Protect(func() { sp.Process(g) }); pf != nil {
+				pf.Msg = fmt.Sprintf("garbage of %d bytes crashed the pipeline\n%s", len(g), pf.Msg)
+				res.Violation = pf
+				return res
+			}
+		}
+	}
+	// "rejected and counted": whatever was thrown at it, the pipeline's metrics must still be exportable (a label value
+	// that the exporter refuses makes the /metrics endpoint answer 500 for everything)
+	sp.InputCount.UpdateMetrics()
+	if _, gerr := vh.GatherErr(sp.MF); gerr != "" {
+		res.Violation = vh.Fail("robust:metrics-export-fails", "after the inputs the pipeline's metric gatherer returns an error: %.600s", gerr)
+		return res
+	}
 	if pf := vh.Protect(func() { sp.Flush() }); pf != nil {
 		res.Violation = pf
 		return res
@@ -215,6 +241,7 @@ func gen(t *rapid.T) Case {
 	if rapid.IntRange(0, 99).Draw(t, "prod") == 57 || (vh.Tier == "thorough" && rapid.IntRange(0, 9).Draw(t, "prod2") == 7) {
 		c.MaxMsg = 1 << 20
 	}
+	c.PoolAll = rapid.IntRange(0, 2).Draw(t, "poolAll") == 0
 	n := rapid.IntRange(1, 4).Draw(t, "ninputs")
 	for i := 0; i < n; i++ {
 		c.Inputs = append(c.Inputs, vh.GenHostile(t, c.MaxMsg))
